@@ -206,7 +206,7 @@ func ruleR02bResolve(c *Ctx, rule string, fn *ssa.Function) {
 			return s
 		},
 		Edge: func(pc *PathCtx, s uint64, from *ssa.BasicBlock, si int) (uint64, bool) {
-			for _, f := range edgeFacts(from, si) {
+			for _, f := range pc.edgeFacts(from, si) {
 				// v.GetType() == TypeAccount
 				if call, ok := f.X.(*ssa.Call); ok && call.Call.IsInvoke() && call.Call.Method.Name() == "GetType" {
 					if n, ok := constInt(f.Y); ok && n == taVal {
